@@ -103,10 +103,10 @@ Judge(e, o) ==
       bad == codes \ known
   IN IF codes = {} THEN "ok"
      ELSE IF bad # {}
-       THEN IF /\ \A c \in bad : PrintT(<<"FAIL", Tr.id, l + 1, alt', e[1], c>>)
-               /\ PrintT(<<"EXPECT", Tr.id, l + 1, alt', Expected(fam)>>)
+       THEN IF /\ \A c \in bad : PrintT(<<"FAIL", ToJson(<<Tr.id, l + 1, alt', e[1], c>>)>>)
+               /\ PrintT(<<"EXPECT", ToJson(<<Tr.id, l + 1, alt', Expected(fam)>>)>>)
             THEN (IF bad \subseteq RelCodes THEN "qfail" ELSE "fail") ELSE "fail"
-       ELSE IF \A c \in known : PrintT(<<"KNOWN", KnownSigs[CHOOSE k \in KnownFor(e, c) : TRUE].id, Tr.id, l + 1, alt', e[1], c>>)
+       ELSE IF \A c \in known : PrintT(<<"KNOWN", ToJson(<<KnownSigs[CHOOSE k \in KnownFor(e, c) : TRUE].id, Tr.id, l + 1, alt', e[1], c>>)>>)
             THEN (IF known \subseteq RelCodes THEN "qknown" ELSE "known") ELSE "known"
 
 TInit == /\ Init
@@ -147,14 +147,14 @@ AltStep ==
 Stuck ==
   /\ Live
   /\ ~Pre(Tr.steps[l + 1])
-  /\ PrintT(<<"STUCK", Tr.id, l + 1, Tr.steps[l + 1][1]>>)
+  /\ PrintT(<<"STUCK", ToJson(<<Tr.id, l + 1, Tr.steps[l + 1][1]>>)>>)
   /\ verdict' = "stuck"
   /\ UNCHANGED <<M, S, D, hist, t, l, seen, alt>>
 StuckAlt ==
   /\ Alive /\ l = Len(Tr.steps)
   /\ \E i \in DOMAIN Tr.alts :
        /\ ~Pre(Tr.alts[i])
-       /\ PrintT(<<"STUCK", Tr.id, l + 1, Tr.alts[i][1]>>)
+       /\ PrintT(<<"STUCK", ToJson(<<Tr.id, l + 1, Tr.alts[i][1]>>)>>)
        /\ verdict' = "stuck"
        /\ alt' = i
        /\ UNCHANGED <<M, S, D, hist, t, l, seen>>
